@@ -3,6 +3,7 @@
 package absnfs
 
 import (
+	"strings"
 	"fmt"
 	"io"
 	"log"
@@ -64,6 +65,21 @@ func vfPoolQueueLen(p *WorkerPool) int {
 }
 
 var vfC20BlockedSeen atomic.Int32
+
+var vfC20NoWorkersSeen atomic.Int32
+
+// vfGoroutinesWith counts the goroutines whose stack contains the frame.
+func vfGoroutinesWith(frame string) int {
+	buf := make([]byte, 8<<20)
+	buf = buf[:runtime.Stack(buf, true)]
+	n := 0
+	for _, g := range strings.Split(string(buf), "\n\n") {
+		if strings.Contains(g, frame) {
+			n++
+		}
+	}
+	return n
+}
 
 func TestVerif_C20(t *testing.T) {
 	rec := evid.New("C20")
@@ -226,8 +242,21 @@ func vfC20Scenario(rec *evid.Rec, s int) {
 				t.subDone.Store(true)
 				post = append(post, t)
 			}
-			for d := time.Now().Add(10 * time.Second); time.Now().Before(d) && int(run.inflight.Load()) < effNew; {
+			patience := 10 * time.Second
+			if vfC20NoWorkersSeen.Load() >= 2 {
+				patience = 200 * time.Millisecond // already witnessed twice; bound the run
+			}
+			for d := time.Now().Add(patience); time.Now().Before(d) && int(run.inflight.Load()) < effNew; {
 				runtime.Gosched()
+			}
+			if run.inflight.Load() == 0 && vfPoolQueueLen(pool) > 0 && atomic.LoadInt32(&pool.running) == 1 {
+				// Nothing started. The clock is no verdict; this is: the pool says it is running, tasks
+				// sit in its queue, and no worker goroutine exists in the whole process (workers are only
+				// ever created by Start, so none will appear). Earlier pools of this monitor were stopped.
+				if n := vfGoroutinesWith("absnfs.(*WorkerPool).worker"); n == 0 {
+					vfC20NoWorkersSeen.Add(1)
+					fail("C20/running-pool-has-no-workers/after-"+action, fmt.Sprintf("Resize(%d) has returned, the pool reports running, %d tasks are queued and no worker goroutine exists: they will never be executed", effNew, vfPoolQueueLen(pool)))
+				}
 			}
 			for y := 0; y < 300; y++ { // give surplus workers, if any exist, a chance to pick up a task
 				runtime.Gosched()
